@@ -2,13 +2,18 @@
   Lemmas/TrAttr: support for Lemmas/TranslatedEq (hand-written, stable).
   * the simp set `tr_eq` collecting the proved ties `Tr.f = model f`, so that the proof of a caller can
     rewrite every callee, also one that a refactoring of the Rust newly introduces;
+  * the tactic `tr_split_hyp`: case-splits an `if`/`match` inside a hypothesis (used by Lemmas/TranslatedSafe);
   * the tactic `tr_congr_omega`: closes `f a₁ … aₙ = f b₁ … bₙ` by proving each `aᵢ = bᵢ` that is not
     syntactically trivial with `omega`.
 -/
 import Lean.Meta.Tactic.Simp.RegisterCommand
 import Lean.Elab.Tactic.Basic
 import Lean.Elab.Tactic.Omega
+import Lean.Meta.Tactic.Split
+import SqlDt.Model.Basic
 register_simp_attr tr_eq
+/-- the proved safety predicates `Tr.f_safe args` (Lemmas/TranslatedSafe), used as conditional rewrite rules to `True` -/
+register_simp_attr tr_safe
 
 namespace SqlDt.TrTactic
 open Lean Elab Tactic Meta
@@ -32,5 +37,74 @@ elab "tr_congr_omega" : tactic => withMainContext do
       unless rest.isEmpty do throwError "tr_congr_omega: omega left goals"
       proof ← mkCongr proof m
   g.assign proof
+
+/-- `split` at the first hypothesis (a proposition) that contains an `if`/`match`; fails if there is none. -/
+elab "tr_split_hyp" : tactic => withMainContext do
+  let g ← getMainGoal
+  for d in (← getLCtx) do
+    if d.isImplementationDetail then continue
+    unless (← isProp d.type) do continue
+    let r ← try Lean.Meta.splitLocalDecl? g d.fvarId catch _ => pure none
+    if let some gs := r then
+      replaceMainGoal gs
+      return
+  throwError "tr_split_hyp: no hypothesis to split"
+
+/-! ### `tr_abstract`: name every `rdiv`/`rrem`/`asI32`/`asU32`/`asU8` term and record what it is, for `omega`
+
+Unfolding `rdiv a b := if 0 ≤ a then a / b else -(-a / b)` in place copies `a` three times, so nested signed divisions
+and casts blow the goal up exponentially (and every copy has to be case-split).  Instead the innermost such term is
+replaced by a fresh variable `q` together with its defining disjunction; `omega` does the case analysis itself. -/
+
+theorem rdiv_spec (a b : Int) : (0 ≤ a ∧ rdiv a b = a / b) ∨ (a < 0 ∧ rdiv a b = -((-a) / b)) := by
+  unfold rdiv; by_cases h : 0 ≤ a
+  · simp [h]
+  · simp [h]; omega
+theorem rrem_spec (a b : Int) : (0 ≤ a ∧ rrem a b = a % b) ∨ (a < 0 ∧ rrem a b = -((-a) % b)) := by
+  unfold rrem; by_cases h : 0 ≤ a
+  · simp [h]
+  · simp [h]; omega
+theorem asI32_spec (x : Int) :
+    (x % 4294967296 < 2147483648 ∧ asI32 x = x % 4294967296) ∨
+    (2147483648 ≤ x % 4294967296 ∧ asI32 x = x % 4294967296 - 4294967296) := by
+  unfold asI32; simp only []; by_cases h : x % 4294967296 ≥ 2147483648
+  · simp [h]
+  · simp [h]; omega
+theorem asU32_spec (x : Int) : asU32 x = x % 4294967296 := rfl
+theorem asU8_spec (x : Int) : asU8 x = x % 256 := rfl
+
+def isAbstractTarget (e : Expr) : Bool :=
+  (e.isAppOfArity ``SqlDt.rdiv 2) || (e.isAppOfArity ``SqlDt.rrem 2) || (e.isAppOfArity ``SqlDt.asI32 1) ||
+  (e.isAppOfArity ``SqlDt.asU32 1) || (e.isAppOfArity ``SqlDt.asU8 1)
+
+/-- an innermost target: none of its arguments contains another one -/
+def findInnermost? (t : Expr) : Option Expr :=
+  t.find? fun s => isAbstractTarget s && !s.hasLooseBVars &&
+    s.getAppArgs.all fun a => (a.find? isAbstractTarget).isNone
+
+elab "tr_abstract1" : tactic => withMainContext do
+  let g ← getMainGoal
+  let mut found : Option Expr := findInnermost? (← instantiateMVars (← g.getType))
+  if found.isNone then
+    for d in (← getLCtx) do
+      if d.isImplementationDetail then continue
+      unless (← isProp d.type) do continue
+      found := findInnermost? (← instantiateMVars d.type)
+      if found.isSome then break
+  let some e := found | throwError "tr_abstract1: nothing to abstract"
+  let args := e.getAppArgs
+  let lem : Name :=
+    if e.isAppOf ``SqlDt.rdiv then ``rdiv_spec else if e.isAppOf ``SqlDt.rrem then ``rrem_spec
+    else if e.isAppOf ``SqlDt.asI32 then ``asI32_spec else if e.isAppOf ``SqlDt.asU32 then ``asU32_spec else ``asU8_spec
+  let mut pf := mkConst lem
+  for a in args do pf := mkApp pf a
+  let g ← g.assert `hq (← inferType pf) pf
+  let (_, g) ← g.intro1
+  replaceMainGoal [g]
+  let es ← Term.exprToSyntax e
+  evalTactic (← `(tactic| generalize $es = q at *))
+
+/-- abstract all of them, innermost first -/
+macro "tr_abstract" : tactic => `(tactic| repeat tr_abstract1)
 
 end SqlDt.TrTactic
